@@ -150,6 +150,8 @@ def _table(rng, malformed=False, small=False):
         for _ in rows:
             labels.append(cur)
             cur += rng.choice([1, 1, 1, 2, 3, rng.randint(1, 40)])
+    if rng.random() < 0.08:
+        rng.shuffle(labels)  # any unique labelling: the repaired code works by position
     if malformed and rng.random() < 0.2:
         for r in rows:
             if rng.random() < 0.5:
@@ -227,7 +229,7 @@ def _case(rng, op, malformed=False, small=False):
                    ignore=None if rng.random() < 0.8 else ["-"])
         tag += "-" + inp["summary"]
     elif op == "breaks":
-        inp.update(segs=_segments(rng, rows, 0.2), min_probes=rng.choice([1, 1, 2, 3, 4]))
+        inp.update(segs=_segments(rng, rows, 0.2), min_probes=rng.choice([1, 1, 2, 3, 4, 0]))
     if PREFIX:
         inp["prefix"] = True
     return {"op": op, "tag": tag, "in": inp}
@@ -263,6 +265,9 @@ def corpus():
          "in": {"rows": gm, "segs": [["chr1", 0, 20, "-", frac(0.5), 2, None], ["chr1", 20, 60, "-", frac(-0.5), 4, None]],
                 "min_probes": 1}},
     ]
+    cs.append({"op": "by_gene", "tag": "corpus-empty", "in": {"rows": [], "ignore": None}})
+    cs.append({"op": "squash_genes", "tag": "corpus-empty",
+               "in": {"rows": [], "summary": "mean", "squash_antitarget": False, "ignore": None}})
     if PREFIX:
         for c in cs:
             c["in"]["prefix"] = True
@@ -425,8 +430,6 @@ def judge(case, impl, resp):
     if isinstance(out, dict) and "error" in out:
         return [], [f"model refuses ({out['error']}) but the code answered"], None
     spec = list(resp.get("spec") or [])
-    if "slack" in resp and Fraction(resp["slack"]) < Fraction(1, 10 ** 9):
-        return [], [], "a |log2| >= threshold comparison within 1e-9 of its boundary"
     dis = []
     if op == "by_gene":
         if out != impl:
@@ -442,6 +445,10 @@ def judge(case, impl, resp):
     elif op == "breaks":
         key = lambda r: (r[1], r[2], r[0], r[4], r[5])
         dis = _cmp_rows("breaks", sorted(out, key=key), sorted(impl, key=key), (0, 1, 2, 4, 5), (3,))
+    if (spec or dis) and "slack" in resp and 0 < Fraction(resp["slack"]) < Fraction(1, 10 ** 9):
+        # an inexact float sits within 1e-9 of the threshold (an exact tie, slack 0, is compared exactly:
+        # the generator only produces ties from dyadic numbers, on which the float arithmetic is exact)
+        return [], [], "a |log2| >= threshold comparison within 1e-9 of its boundary"
     return spec, dis, None
 
 
